@@ -229,7 +229,7 @@ func c10Drivers() []concParams {
 		// writers queue up behind a transaction that holds the write lock until all of them are
 		// parked: when it commits, one becomes leader and finds the others waiting to be merged
 		{Name: "queue-behind-transaction", Cfg: "roomy/bytewise", Clients: [][]string{{"trq:+z"}, {"put:a"}, {"put:b"}, {"w:+a,+b", "get:a"}}, QB: 2, TB: 3, WQ: 4, WT: 5, Expect: "noerr"},
-		{Name: "queue-behind-transaction-overflow", Cfg: "wide/bytewise", Clients: [][]string{{"trq:+z"}, {"put:a"}, {"put:b"}, {"putL:b"}, {"w:+a,+b", "get:a"}}, QB: 2, TB: 2, WQ: 4, WT: 5, Expect: "noerr"},
+		{Name: "queue-behind-transaction-overflow", Cfg: "wide/bytewise", Clients: [][]string{{"trq:+z"}, {"put:a"}, {"put:b"}, {"putL:b"}, {"w:+a,+b", "get:a"}}, QB: 2, TB: 2, WT: 4, Expect: "noerr"},
 		// the same queue with a record above the fixed 128 KiB merge limit in a roomy buffer: the
 		// oversized writer takes the lock over without having to rotate the buffer first
 		{Name: "queue-behind-transaction-huge", Cfg: "roomy/bytewise", Clients: [][]string{{"trq:+z"}, {"put:a"}, {"put:b"}, {"putH:b"}, {"w:+a,+b", "get:a"}}, QB: 2, TB: 2, WQ: 4, WT: 5, Expect: "noerr"},
